@@ -1,6 +1,6 @@
 (* Parameter dictionaries: models of parseFlate, parseLZW, parseCCITTFax,
    predictParams (filter.go) and of the geometry cap in
-   FilterCCITTFax.Decode.  A dictionary maps each key to an object of any
+   FilterCCITTFax.toParams.  A dictionary maps each key to an object of any
    type; only Integer (an int64) and Boolean values are ever looked at, every
    other type (and an absent key) fails the Go type assertion in the same way.
    FlatePredictor.isValid is the translated Go function (Gen_C08). *)
@@ -106,10 +106,11 @@ Definition parse_ccitt (d : pdict) : ccitt :=
     (get_bool d KBlackIs1 false)
     (get_dim d KDamagedRowsBeforeError 0).
 
-(* FilterCCITTFax.toParams + the row cap of FilterCCITTFax.Decode:
-   (Columns handed to the reader, MaxRows handed to the reader) *)
+(* FilterCCITTFax.toParams (used by Decode and by Encode): the Columns and the MaxRows handed
+   to the reader; maxRows := max(1, min(MaxImageHeight, MaxImagePixels/max(cols,1))), replaced
+   by /Rows when 0 < Rows < maxRows *)
 Definition ccitt_geometry (c : ccitt) : Z * Z :=
   let pcols := if c_cols c =? 0 then 1728 else c_cols c in
   let cols := Z.max pcols 1 in
   let geo := Z.max 1 (Z.min MaxImageHeight (Z.quot MaxImagePixels cols)) in
-  (pcols, if (c_rows c <=? 0) || (geo <? c_rows c) then geo else c_rows c).
+  (pcols, if (0 <? c_rows c) && (c_rows c <? geo) then c_rows c else geo).
